@@ -12,6 +12,9 @@ def body(chk):
     # Features::insert files every scenario under the type the classifier gives for THAT scenario
     from checks import insert_retry
     insert_retry.obligations(chk, 'C07')
+    # and a retried attempt goes back under the type it was dispatched as (the real run_scenario, one attempt)
+    from checks import attempt_driver
+    attempt_driver.run(chk, 'C07')
 
 
 if __name__ == '__main__':
